@@ -1976,6 +1976,15 @@ class TLSConnection(TLSRecordLayer):
                             "Client certificate is of wrong type"):
                         yield result
 
+                # EdDSA signatures are defined only for TLS 1.2 and later
+                if self.version < (3, 3) and privateKey and \
+                        privateKey.key_type in ("Ed25519", "Ed448"):
+                    for result in self._sendError(
+                            AlertDescription.handshake_failure,
+                            "EdDSA client certificate can't be used below "
+                            "TLS 1.2"):
+                        yield result
+
             clientCertificate = self._create_cert_msg(
                 "client", certificateRequest,
                 settings.certificate_compression_send, clientCertChain,
